@@ -96,9 +96,13 @@ func (fr *Frame) bindResults(v ssa.Value, sig *types.Signature, names []string, 
 		t.Ty = rt
 		if s == SSlice {
 			vc.assume(sliceWF(t))
+			vc.assume(Le(mk("sbase", SInt, t), st.Get(g, "heapTop")))
 			if sl, ok := rt.Underlying().(*types.Slice); ok {
 				t.Elem = g.sortOf(sl.Elem())
 			}
+		}
+		if _, isPtr := rt.Underlying().(*types.Pointer); isPtr {
+			vc.assume(And(mk(">=", SBool, t, IntLit(0)), Le(t, st.Get(g, "heapTop"))))
 		}
 		res = append(res, t)
 	}
@@ -185,6 +189,33 @@ func (fr *Frame) applyContract(v ssa.Value, ct *Contract, name string, c *ssa.Ca
 		}
 		vc.oblige(oname, "pre", props, vc.pos(in.Pos()), alive, t, r.Expr)
 	}
+	// 1b. the caller's own at_call assertions for this callee
+	if fr.top {
+		for i, ac := range vc.ct.AtCalls {
+			if ac.Var != name {
+				continue
+			}
+			e2 := fr.env0.child()
+			e2.st = st
+			e2.old = fr.env0
+			e2.where = ac.Line
+			for k, val := range env.vars {
+				if _, clash := e2.vars[k]; !clash {
+					e2.vars[k] = val
+				}
+			}
+			e2.resolve = func(nm string) (*Term, bool) { return fr.resolveAt(nm, in, st) }
+			t, err := e2.Parse(ac.Expr)
+			if err != nil {
+				panic(&exprError{err.Error()})
+			}
+			label := ac.Label
+			if label == "" {
+				label = fmt.Sprintf("%d", i+1)
+			}
+			vc.oblige(fmt.Sprintf("at:%s[%s]", ord, label), "at_call", ac.Props, vc.pos(in.Pos()), alive, t, ac.Expr)
+		}
+	}
 	// 2. exit conditions of the caller at terminal calls
 	if ct.Terminal {
 		if fr.top {
@@ -193,6 +224,7 @@ func (fr *Frame) applyContract(v ssa.Value, ct *Contract, name string, c *ssa.Ca
 				e2.st = st
 				e2.old = fr.env0
 				e2.where = er.Line
+				e2.resolve = func(nm string) (*Term, bool) { return fr.resolveAt(nm, in, st) }
 				for k, val := range env.vars { // callee parameters (e.g. code)
 					if _, clash := e2.vars[k]; !clash {
 						e2.vars[k] = val
@@ -216,14 +248,24 @@ func (fr *Frame) applyContract(v ssa.Value, ct *Contract, name string, c *ssa.Ca
 	}
 	// 3. effects: havoc assigned components, ghost updates
 	post := st
-	for _, a := range ct.Assigns {
-		comp := compOfAssign(g, a)
+	ms := fr.vc.contractMods(ct, c.StaticCallee(), map[*ssa.Function]bool{})
+	for _, comp := range sortedKeys(ms.full) {
 		nv := vc.fresh(compSym(comp), g.compSort(comp))
 		nv.Ty = pre.Get(g, comp).Ty
 		post.Set(comp, nv)
 		if comp == "heapTop" {
 			vc.assume(Implies(alive, Le(pre.Get(g, comp), nv)))
 		}
+	}
+	for _, comp := range sortedKeys(ms.fresh) {
+		if ms.full[comp] {
+			continue
+		}
+		old := pre.Get(g, comp)
+		nv := vc.fresh(compSym(comp), g.compSort(comp))
+		post.Set(comp, nv)
+		r := Const("?r", SInt)
+		vc.assume(Forall([]*Term{r}, Implies(Le(r, pre.Get(g, "heapTop")), Eq(Select(nv, r), Select(old, r))), Select(nv, r)))
 	}
 	for _, hc := range ct.HavocCells {
 		if p, ok := env.vars[hc]; ok && p.Ty != nil {
@@ -272,7 +314,7 @@ func (fr *Frame) applyContract(v ssa.Value, ct *Contract, name string, c *ssa.Ca
 		post.Set(comp, vc.define(compSym(comp), t))
 	}
 	// 4. postconditions
-	for _, e := range ct.Ensures {
+	for _, e := range append(append([]*Clause{}, ct.Ensures...), ct.TrustedEns...) {
 		e2 := *penv
 		e2.where = e.Line
 		t, err := e2.Parse(e.Expr)
@@ -385,6 +427,23 @@ func (fr *Frame) runDeferred(d deferRec, st *State, alive *Term) {
 	}
 }
 
+// singleVararg: is the variadic operand of append a freshly built one-element array?
+func singleVararg(c *ssa.CallCommon) bool {
+	if len(c.Args) < 2 {
+		return false
+	}
+	sl, ok := c.Args[1].(*ssa.Slice)
+	if !ok || sl.Low != nil || sl.High != nil {
+		return false
+	}
+	al, ok := sl.X.(*ssa.Alloc)
+	if !ok {
+		return false
+	}
+	at, ok := al.Type().(*types.Pointer).Elem().Underlying().(*types.Array)
+	return ok && at.Len() == 1
+}
+
 // ---- builtins -----------------------------------------------------------------------------------
 
 func (fr *Frame) execBuiltin(v ssa.Value, b *ssa.Builtin, c *ssa.CallCommon, st *State, alive *Term, in ssa.Instruction) {
@@ -448,6 +507,13 @@ func (fr *Frame) execBuiltin(v ssa.Value, b *ssa.Builtin, c *ssa.CallCommon, st 
 		inPlaceArr := cpy(Select(h, base), Add(off, ln), srcArr, srcOff, n)
 		freshInit := vc.fresh("apparr", ArrSort(SInt, es))
 		freshArr := cpy(cpy(freshInit, IntLit(0), Select(h, base), off, ln), ln, srcArr, srcOff, n)
+		if one := singleVararg(c); one {
+			// append(s, x): the operand array has exactly one element
+			x := vc.define("appx", Select(srcArr, srcOff))
+			vc.assume(Eq(n, IntLit(1)))
+			inPlaceArr = Store(Select(h, base), Add(off, ln), x)
+			freshArr = Store(cpy(freshInit, IntLit(0), Select(h, base), off, ln), ln, x)
+		}
 		st.Set(comp, vc.define(compSym(comp), Ite(inPlace, Store(h, base, inPlaceArr), Store(h, ref, freshArr))))
 		res := Ite(inPlace, mk("mkslice", SSlice, base, off, newLen, cp), mk("mkslice", SSlice, ref, IntLit(0), newLen, newCap))
 		fr.setVal(v, res)
